@@ -55,6 +55,9 @@ use crate::hll::serialization::TGT_HLL8;
 use crate::hll::serialization::extract_cur_mode;
 use crate::hll::serialization::extract_tgt_hll_type;
 
+/// Log2 of the size of a coupon list; lists never grow
+const LG_LIST_SIZE: u8 = 3;
+
 /// A HyperLogLog sketch.
 ///
 /// See the [module level documentation](super) for more.
@@ -330,9 +333,10 @@ impl HllSketch {
                         )));
                     }
 
-                    if lg_arr > lg_config_k {
+                    // a coupon list never grows: it holds at most 2^3 coupons and is promoted when full
+                    if lg_arr > LG_LIST_SIZE {
                         return Err(Error::deserial(format!(
-                            "LIST mode lg_arr must not exceed lg_k {lg_config_k}, got {lg_arr}",
+                            "LIST mode lg_arr must not exceed {LG_LIST_SIZE}, got {lg_arr}",
                         )));
                     }
                     let lg_arr = lg_arr as usize;
@@ -348,9 +352,11 @@ impl HllSketch {
                         )));
                     }
 
-                    if lg_arr > lg_config_k {
+                    // a coupon set is promoted to the register array when its table has reached lg_k - 3
+                    if lg_arr > lg_config_k.saturating_sub(3) {
                         return Err(Error::deserial(format!(
-                            "SET mode lg_arr must not exceed lg_k {lg_config_k}, got {lg_arr}",
+                            "SET mode lg_arr must not exceed lg_k - 3 = {}, got {lg_arr}",
+                            lg_config_k.saturating_sub(3)
                         )));
                     }
                     let lg_arr = lg_arr as usize;
